@@ -21,7 +21,7 @@ hlib.encoded(MSF._read_share_data, MSF._read_data_length, MSF._write_data_length
              MSF._write_extra_lease_offset, MSF._read_num_extra_leases, MSF.writev, MSF.readv, MSF.check_testv,
              MSF.__init__, mut.testv_compare, mut.EmptyShare.check_testv)
 
-PATH = "/s/shares/aa/aaaa/0"
+PATH = X.share_path(0)
 PARENT = X.Parent()
 
 
@@ -78,7 +78,7 @@ def _check_header(st, dl2):
 
 def _do_write(dl, elo, nx, off, ln):
     """-> (file state, slots, extras, rejected?)"""
-    FS.reset()
+    X.reset()
     slots, extras = _slots(), _extras(nx)
     st = X.mk_mutable(PATH, dl, elo, slots, extras)
     sf = MSF(PATH, PARENT)
@@ -97,6 +97,10 @@ def h_write(dl: int, elo: int, nx: int, off: int, ln: int, p: int) -> bool:
     pre: 0 <= off and 0 <= ln and 0 <= p
     post: _ == True
     """
+    return X.guard(_h_write, dl, elo, nx, off, ln, p)
+
+
+def _h_write(dl, elo, nx, off, ln, p):
     st, slots, extras, rejected = _do_write(dl, elo, nx, off, ln)
     if rejected:
         if off + ln <= MAX_SIZE:
@@ -122,6 +126,10 @@ def h_write_leases(dl: int, elo: int, nx: int, off: int, ln: int) -> bool:
     pre: 0 <= off and 0 <= ln and off + ln <= MAX_SIZE
     post: _ == True
     """
+    return X.guard(_h_write_leases, dl, elo, nx, off, ln)
+
+
+def _h_write_leases(dl, elo, nx, off, ln):
     st, slots, extras, rejected = _do_write(dl, elo, nx, off, ln)
     if rejected:
         return "DataTooLargeError for a write that fits"
@@ -139,7 +147,11 @@ def h_read(dl: int, elo: int, nx: int, off: int, ln: int, p: int) -> bool:
     pre: 0 <= off and 0 <= ln and 0 <= p
     post: _ == True
     """
-    FS.reset()
+    return X.guard(_h_read, dl, elo, nx, off, ln, p)
+
+
+def _h_read(dl, elo, nx, off, ln, p):
+    X.reset()
     st = X.mk_mutable(PATH, dl, elo, _slots(), _extras(nx))
     sf = MSF(PATH, PARENT)
     with FS.open(PATH, "rb") as f:
@@ -154,4 +166,276 @@ def h_read(dl: int, elo: int, nx: int, off: int, ln: int, p: int) -> bool:
         return "get_length"
     if FS.nops != 0:
         return "read modified the file"
+    return True
+
+
+def h_writev_truncate(dl: int, elo: int, off: int, ln: int, has_new: bool, newlen: int, p: int) -> bool:
+    """
+    pre: X.mutable_inv(dl, elo)
+    pre: 0 <= off and 0 <= ln and off + ln <= MAX_SIZE and 0 <= p and 0 <= newlen
+    post: _ == True
+    """
+    return X.guard(_h_writev_truncate, dl, elo, off, ln, has_new, newlen, p)
+
+
+def _h_writev_truncate(dl, elo, off, ln, has_new, newlen, p):
+    X.reset()
+    slots, extras = _slots(), _extras(0)
+    st = X.mk_mutable(PATH, dl, elo, slots, extras)
+    sf = MSF(PATH, PARENT)
+    nl = newlen if has_new else None
+    sf.writev([(off, ProvBuf.src("new", ln))], nl)
+    l1 = dl if dl > off + ln else off + ln
+    l2 = newlen if (has_new and newlen < l1) else l1
+    bad, elo2 = _check_header(st, l2)
+    if bad:
+        return bad
+    if p < l2 and st.at(DATA_OFFSET + p) != _model_byte(dl, off, ln, p):
+        return "byte at probe after writev is not what the byte-array model says"
+    return True
+
+
+class _Rec(object):
+    def __init__(self):
+        self.calls = []
+
+
+def h_writev_order(dl: int, nvec: int, o1: int, o2: int, o3: int, has_new: bool, newlen: int) -> bool:
+    """
+    pre: X.mutable_inv(dl, DATA_OFFSET + dl) and 0 <= nvec <= 3 and 0 <= newlen
+    pre: 0 <= o1 <= MAX_SIZE and 0 <= o2 <= MAX_SIZE and 0 <= o3 <= MAX_SIZE
+    post: _ == True
+    """
+    return X.guard(_h_writev_order, dl, nvec, o1, o2, o3, has_new, newlen)
+
+
+def _h_writev_order(dl, nvec, o1, o2, o3, has_new, newlen):
+    # writev == apply _write_share_data to each vector in order on one open file, then truncate:
+    # the real writev runs with a recording _write_share_data (whose effect on the length field is the
+    # byte-array one, as established by the `write` obligation)
+    X.reset()
+    st = X.mk_mutable(PATH, dl, DATA_OFFSET + dl, _slots(), _extras(0))
+    sf = MSF(PATH, PARENT)
+    calls = []
+    cur = [dl]
+
+    def rec(f, offset, data):
+        calls.append((f, offset, data))
+        if offset + len(data) > cur[0]:
+            cur[0] = offset + len(data)
+        sf._write_data_length(f, cur[0])
+    sf._write_share_data = rec
+    vecs = [(o1, ProvBuf.src("d1", 1)), (o2, ProvBuf.src("d2", 2)), (o3, ProvBuf.src("d3", 3))][:nvec]
+    sf.writev(vecs, newlen if has_new else None)
+    if len(calls) != nvec:
+        return "writev did not apply every write vector exactly once"
+    for i in range(nvec):
+        if calls[i][1] is not vecs[i][0] or calls[i][2] is not vecs[i][1] or calls[i][0] is not calls[0][0]:
+            return "writev applied the vectors out of order / on different files"
+    want = newlen if (has_new and newlen < cur[0]) else cur[0]
+    (dlf,) = X.rec_values(st, MSF.DATA_LENGTH_OFFSET, ">Q")
+    if dlf != want:
+        return "writev truncation: length must become min(length after the writes, new_length)"
+    return True
+
+
+def h_writev_two(dl: int, elo: int, o1: int, l1: int, o2: int, l2: int, p: int) -> bool:
+    """
+    pre: X.mutable_inv(dl, elo) and elo == DATA_OFFSET + B["cont_max"]
+    pre: 0 <= o1 and 0 <= l1 and o1 + l1 <= B["cont_max"] and 0 <= o2 and 0 <= l2 and o2 + l2 <= B["cont_max"] and 0 <= p
+    post: _ == True
+    """
+    return X.guard(_h_writev_two, dl, elo, o1, l1, o2, l2, p)
+
+
+def _h_writev_two(dl, elo, o1, l1, o2, l2, p):
+    X.reset()
+    slots, extras = _slots(), _extras(0)
+    st = X.mk_mutable(PATH, dl, elo, slots, extras)
+    sf = MSF(PATH, PARENT)
+    sf.writev([(o1, ProvBuf.src("new", l1)), (o2, ProvBuf.src("new2", l2))], None)
+    n1 = dl if dl > o1 + l1 else o1 + l1
+    n2 = n1 if n1 > o2 + l2 else o2 + l2
+    bad, elo2 = _check_header(st, n2)
+    if bad:
+        return bad
+    if p < n2:
+        if o2 <= p < o2 + l2:
+            want = ("new2", p - o2)
+        elif p < n1:
+            want = _model_byte(dl, o1, l1, p)
+        else:
+            want = (ProvBuf.ZERO, 0)
+        if st.at(DATA_OFFSET + p) != want:
+            return "two write vectors are not applied in order on the byte array"
+    return True
+
+
+def _clip(dl, o, l):
+    end = o + l if o + l < dl else dl
+    return end - o if end > o else 0
+
+
+def h_readv(dl: int, elo: int, o1: int, l1: int, o2: int, l2: int, p: int) -> bool:
+    """
+    pre: X.mutable_inv(dl, elo)
+    pre: 0 <= o1 and 0 <= l1 and 0 <= o2 and 0 <= l2 and 0 <= p
+    post: _ == True
+    """
+    return X.guard(_h_readv, dl, elo, o1, l1, o2, l2, p)
+
+
+def _h_readv(dl, elo, o1, l1, o2, l2, p):
+    X.reset()
+    X.mk_mutable(PATH, dl, elo, _slots(), _extras(0))
+    sf = MSF(PATH, PARENT)
+    got = sf.readv([(o1, l1), (o2, l2)])
+    if len(got) != 2:
+        return "readv result count"
+    for (o, l, g) in ((o1, l1, got[0]), (o2, l2, got[1])):
+        want_len = _clip(dl, o, l)
+        if len(g) != want_len:
+            return "readv not clipped at the data length"
+        if p < want_len and g.at(p) != ("old", o + p):
+            return "readv returned wrong bytes"
+    if FS.nops != 0:
+        return "readv modified the file"
+    return True
+
+
+def h_testv(dl: int, elo: int, o1: int, l1: int, so: int, sl: int, second_ok: bool) -> bool:
+    """
+    pre: X.mutable_inv(dl, elo)
+    pre: 0 <= o1 and 0 <= l1 and 0 <= so and 0 <= sl
+    post: _ == True
+    """
+    return X.guard(_h_testv, dl, elo, o1, l1, so, sl, second_ok)
+
+
+def _h_testv(dl, elo, o1, l1, so, sl, second_ok):
+    X.reset()
+    X.mk_mutable(PATH, dl, elo, _slots(), _extras(0))
+    sf = MSF(PATH, PARENT)
+    # test vector: bytes [o1, o1+l1) must equal the specimen = bytes [so, so+sl) of the current data
+    specimen = ProvBuf.src("old", sl, so)
+    res = sf.check_testv([(o1, l1, b"eq", specimen)])
+    cl = _clip(dl, o1, l1)
+    want = (cl == sl) and (cl == 0 or so == o1)
+    if res != want:
+        return "check_testv does not compare the specimen with the current (clipped) data"
+    # two vectors: conjunction (the other vector reads beyond every possible end: empty specimen passes, non-empty fails)
+    other = (MAX_SIZE + 1, 1, b"eq", b"" if second_ok else ProvBuf.src("zz", 1))
+    if sf.check_testv([other, (o1, l1, b"eq", specimen)]) != (want and second_ok):
+        return "check_testv with two vectors is not the conjunction"
+    if sf.check_testv([(o1, l1, b"eq", specimen), other]) != (want and second_ok):
+        return "check_testv with two vectors is not the conjunction (order)"
+    # a missing share reads as empty
+    if mut.EmptyShare().check_testv([(o1, l1, b"eq", specimen)]) != (sl == 0):
+        return "EmptyShare.check_testv: missing share must read as empty"
+    if FS.nops != 0:
+        return "test vector evaluation modified the file"
+    return True
+
+
+# ---- truncate-to-zero deletes; new shares are created empty (StorageServer._evaluate_write_vectors) ----
+
+_evalw = hlib.strip_logs(X.SS._evaluate_write_vectors)
+hlib.encoded(X.SS._allocate_slot_share, mut.create_mutable_sharefile, MSF.create, MSF.unlink,
+             X.mutable_schema._Schema.header)
+BUCKET = X.BUCKET
+
+
+def h_delete_create(exists: bool, dl: int, elo: int, off: int, ln: int, nlkind: int, newlen: int, other: bool, p: int) -> bool:
+    """
+    pre: X.mutable_inv(dl, elo) and nlkind == B["nlkind"] and exists == B["exists"] and 0 <= newlen
+    pre: 0 <= off and 0 <= ln and off + ln <= MAX_SIZE and 0 <= p
+    post: _ == True
+    """
+    return X.guard(_h_delete_create, exists, dl, elo, off, ln, nlkind, newlen, other, p)
+
+
+def _h_delete_create(exists, dl, elo, off, ln, nlkind, newlen, other, p):
+    X.reset()
+    ss = X.mk_server()
+    shares = {}
+    slots, extras = _slots(), _extras(0)
+    if exists:
+        X.mk_mutable(PATH, dl, elo, slots, extras)
+        shares[0] = MSF(PATH, ss)
+    else:
+        dl = 0
+    if other:
+        X.mk_mutable(BUCKET + "/1", 5, DATA_OFFSET + 5, slots, extras)
+    # nlkind 0: new_length None, 1: new_length == 0, 2: new_length == newlen
+    nl = None if nlkind == 0 else (0 if nlkind == 1 else newlen)
+    secrets = (X.WE_GOOD, X.tok("R", 0), X.tok("C", 0))
+    remaining = _evalw(ss, BUCKET, secrets, {0: ([], [(off, ProvBuf.src("new", ln))], nl)}, shares)
+    if nl is not None and nl == 0:
+        if PATH in FS.files:
+            return "new_length == 0 did not delete the share"
+        if list(remaining) != []:
+            return "deleted share reported as remaining"
+        if not other and BUCKET in FS.dirs:
+            return "empty bucket directory left behind"
+        if other and (BUCKET + "/1") not in FS.files:
+            return "deleting one share removed another"
+        return True
+    if list(remaining) != [0] or PATH not in FS.files:
+        return "share missing after a write"
+    st = FS.files[PATH]
+    l1 = dl if dl > off + ln else off + ln
+    l2 = nl if (nl is not None and nl < l1) else l1
+    (magic, nodeid, we, dlf, elof) = X.rec_values(st, 0, ">32s20s32sQQ")
+    if magic != X.MAGIC[2] or nodeid != X.NODEID or we != X.WE_GOOD:
+        return "magic / nodeid / write enabler of the container wrong"
+    if dlf != l2 or not X.mutable_inv(l2, elof):
+        return "length / container invariant wrong after create+write"
+    if st.size != elof + 4:
+        return "file does not end with the (empty) extra lease block"
+    if p < l2 and st.at(DATA_OFFSET + p) != _model_byte(dl, off, ln, p):
+        return "byte at probe wrong (a new share must start empty)"
+    if not exists:
+        for i in range(4):
+            got = X.rec_values(st, X.HEADER_SIZE + i * MLEASE, ">LL32s32s20s")
+            if got[0] != 0:
+                return "new container has a non-empty lease slot"
+    return True
+
+
+def h_create(off: int, ln: int, exp: int, renew: bool) -> bool:
+    """
+    pre: 0 <= off and 0 <= ln and 0 <= exp < X.U32
+    post: _ == True
+    """
+    return X.guard(_h_create, off, ln, exp, renew)
+
+
+def _h_create(off, ln, exp, renew):
+    # a container as create_mutable_sharefile leaves it: empty byte array, consistent geometry, 4 free lease slots
+    from allmydata.storage.lease import LeaseInfo
+    X.reset()
+    FS.split_hint = DATA_OFFSET
+    sf = mut.create_mutable_sharefile(PATH, X.NODEID, X.WE_GOOD, PARENT)
+    st = FS.get(PATH)
+    bad, elo = _check_header(st, 0)
+    if bad:
+        return "fresh container: " + bad
+    (cnt,) = X.rec_values(st, elo, ">L")
+    if cnt != 0 or st.size != elo + 4:
+        return "fresh container must end with an empty extra-lease block"
+    if sf.readv([(off, ln)]) != [b""] or sf.get_length() != 0:
+        return "fresh container must read as empty"
+    if list(sf.get_leases()) != []:
+        return "fresh container has leases"
+    li = LeaseInfo(3, X.tok("R", 1), X.tok("C", 1), exp, X.NODEID)
+    if renew:
+        sf.add_or_renew_lease(0, li)
+    else:
+        sf.add_lease(0, li)
+    got = X.rec_values(st, X.HEADER_SIZE, ">LL32s32s20s")
+    if got != (3, exp, X.hashed(2, X.tok("R", 1)), X.hashed(2, X.tok("C", 1)), X.NODEID):
+        return "first lease of a fresh container must go into in-header slot 0 (no space needed)"
+    (cnt,) = X.rec_values(st, elo, ">L")
+    if cnt != 0 or st.size != elo + 4 or _check_header(st, 0)[0]:
+        return "adding the first lease disturbed the container geometry"
     return True
